@@ -131,7 +131,7 @@ def run(ctx):
     ctx.extra["disagreements_checked"] = len(codes)
     if silently:
         j, r, c = silently[0]
-        ctx.violation("failing-input", {"what": "an exported function of the source is missing from the emitted module", "source": j["src"], "function": c["fn"], "hex": r["hex"]})
+        ctx.violation("failing-input", {"what": "an exported function of the source is missing from the emitted module", "source": j["src"], "compiled_before_on_the_same_Compiler_object": j.get("before", []), "function": c["fn"], "hex": r["hex"]})
     kf = ctx.known_findings()
     rest = []
     for x in bad_spec:
@@ -147,12 +147,12 @@ def run(ctx):
     if invalid and not silently:
         j, r, n = min(invalid, key=lambda x: len(x[0]["src"]))
         ctx.violation("failing-input", {"what": "the compiler emitted a module that a conforming engine rejects: it neither agrees with the VM nor was it refused", "case_kind": j["kind"],
-                                        "source": j["src"], "hex": r["hex"], "v8": n.get("error"), "count": len(invalid)})
+                                        "source": j["src"], "compiled_before_on_the_same_Compiler_object": j.get("before", []), "hex": r["hex"], "v8": n.get("error"), "count": len(invalid)})
     elif silently:
         pass
     elif bad_spec:
         j, r, c, nr, vr = min(bad_spec, key=lambda x: len(x[0]["src"]))
-        ctx.violation("failing-input", {"what": "the emitted WebAssembly function does not return what the source program computes", "case_kind": j["kind"], "source": j["src"], "function": c["fn"],
+        ctx.violation("failing-input", {"what": "the emitted WebAssembly function does not return what the source program computes", "case_kind": j["kind"], "source": j["src"], "compiled_before_on_the_same_Compiler_object": j.get("before", []), "function": c["fn"],
                                         "args": c["args"], "v8": nr, "vm": vr, "hex": r["hex"], "count": len(bad_spec)})
     elif bad_model:
         j, r, c, nr, vr = bad_model[0]
